@@ -122,8 +122,11 @@ Conforms(T, c, w) ==
           /\ w.items[1].items[2].f = "ARR" /\ AllOf(w.items[1].items[2].items, "STR")
     [] (T = "stringlist" \/ T = "dynamic") /\ c = "texts" -> w.f = "ARR" /\ w.items # <<>> /\ AllOf(w.items, "STR")
     [] T = "dictlist" /\ c = "dicts" -> w.f = "ARR" /\ w.items # <<>> /\ AllOf(w.items, "MAP")
+    [] T = "digest" /\ c = "none" -> w = Nil \/ w = Arr(<<Nil, Nil, Nil>>)     \* unset: nil, or the empty default
     [] OTHER -> w = Enc(T, c)
-ConformsList(T, cs, w) == w.f = "ARR" /\ Len(w.items) = Len(cs) /\ \A i \in DOMAIN cs : Conforms(T, cs[i], w.items[i])
+\* an unset typed list is nil or the empty list (the generated class for keyword field names keeps None)
+ConformsList(T, cs, w) == \/ (cs = <<>> /\ w = Nil)
+                          \/ (w.f = "ARR" /\ Len(w.items) = Len(cs) /\ \A i \in DOMAIN cs : Conforms(T, cs[i], w.items[i]))
 \* typed list form T[]: an array of element encodings; an unset list is the empty list
 EncList(T, cs) == Arr([i \in DOMAIN cs |-> Enc(T, cs[i])])
 \* grouped record: EXT(0x12, [name, [[identifier, values], ...]])
